@@ -2,7 +2,7 @@ SPECIFICATION Spec
 CONSTANTS W = 14
           PB = 7
           H = 7
-          OPS = {"divmod", "mod63", "modH", "dmstep"}
+          OPS = {"divmod", "mod63", "modH"}
 INVARIANT ConstructorOK
 INVARIANT NoOverflow
 INVARIANT Exact
